@@ -182,11 +182,11 @@ unsafe fn do_open(path: *const c_char, flags: c_int, mode: mode_t, which: u8) ->
 }
 
 #[no_mangle]
-pub unsafe extern "C" fn open64(path: *const c_char, flags: c_int, mode: mode_t) -> c_int {
+pub unsafe extern "C-unwind" fn open64(path: *const c_char, flags: c_int, mode: mode_t) -> c_int {
     do_open(path, flags, mode, 0)
 }
 #[no_mangle]
-pub unsafe extern "C" fn open(path: *const c_char, flags: c_int, mode: mode_t) -> c_int {
+pub unsafe extern "C-unwind" fn open(path: *const c_char, flags: c_int, mode: mode_t) -> c_int {
     do_open(path, flags, mode, 1)
 }
 
@@ -207,16 +207,16 @@ unsafe fn do_openat(dirfd: c_int, path: *const c_char, flags: c_int, mode: mode_
     real_openat(dirfd, path, flags, mode)
 }
 #[no_mangle]
-pub unsafe extern "C" fn openat64(d: c_int, p: *const c_char, f: c_int, m: mode_t) -> c_int {
+pub unsafe extern "C-unwind" fn openat64(d: c_int, p: *const c_char, f: c_int, m: mode_t) -> c_int {
     do_openat(d, p, f, m)
 }
 #[no_mangle]
-pub unsafe extern "C" fn openat(d: c_int, p: *const c_char, f: c_int, m: mode_t) -> c_int {
+pub unsafe extern "C-unwind" fn openat(d: c_int, p: *const c_char, f: c_int, m: mode_t) -> c_int {
     do_openat(d, p, f, m)
 }
 
 #[no_mangle]
-pub unsafe extern "C" fn creat64(path: *const c_char, mode: mode_t) -> c_int {
+pub unsafe extern "C-unwind" fn creat64(path: *const c_char, mode: mode_t) -> c_int {
     do_open(path, libc::O_CREAT | libc::O_WRONLY | libc::O_TRUNC, mode, 3)
 }
 
@@ -224,7 +224,7 @@ pub unsafe extern "C" fn creat64(path: *const c_char, mode: mode_t) -> c_int {
 // close
 
 #[no_mangle]
-pub unsafe extern "C" fn close(fd: c_int) -> c_int {
+pub unsafe extern "C-unwind" fn close(fd: c_int) -> c_int {
     let real_close = real!("close", fn(c_int) -> c_int);
     if !active() {
         return real_close(fd);
@@ -249,7 +249,7 @@ pub unsafe extern "C" fn close(fd: c_int) -> c_int {
 // write / read
 
 #[no_mangle]
-pub unsafe extern "C" fn write(fd: c_int, buf: *const c_void, n: size_t) -> ssize_t {
+pub unsafe extern "C-unwind" fn write(fd: c_int, buf: *const c_void, n: size_t) -> ssize_t {
     let real_write = real!("write", fn(c_int, *const c_void, size_t) -> ssize_t);
     if !active() {
         return real_write(fd, buf, n);
@@ -286,7 +286,7 @@ pub unsafe extern "C" fn write(fd: c_int, buf: *const c_void, n: size_t) -> ssiz
 }
 
 #[no_mangle]
-pub unsafe extern "C" fn read(fd: c_int, buf: *mut c_void, n: size_t) -> ssize_t {
+pub unsafe extern "C-unwind" fn read(fd: c_int, buf: *mut c_void, n: size_t) -> ssize_t {
     let real_read = real!("read", fn(c_int, *mut c_void, size_t) -> ssize_t);
     if !active() {
         return real_read(fd, buf, n);
@@ -317,7 +317,7 @@ pub unsafe extern "C" fn read(fd: c_int, buf: *mut c_void, n: size_t) -> ssize_t
 }
 
 #[no_mangle]
-pub unsafe extern "C" fn pread64(fd: c_int, buf: *mut c_void, n: size_t, off: off64_t) -> ssize_t {
+pub unsafe extern "C-unwind" fn pread64(fd: c_int, buf: *mut c_void, n: size_t, off: off64_t) -> ssize_t {
     let real_pread = real!("pread64", fn(c_int, *mut c_void, size_t, off64_t) -> ssize_t);
     if !active() {
         return real_pread(fd, buf, n, off);
@@ -379,11 +379,11 @@ unsafe fn do_sync(fd: c_int, data_only: bool) -> c_int {
     r
 }
 #[no_mangle]
-pub unsafe extern "C" fn fsync(fd: c_int) -> c_int {
+pub unsafe extern "C-unwind" fn fsync(fd: c_int) -> c_int {
     do_sync(fd, false)
 }
 #[no_mangle]
-pub unsafe extern "C" fn fdatasync(fd: c_int) -> c_int {
+pub unsafe extern "C-unwind" fn fdatasync(fd: c_int) -> c_int {
     do_sync(fd, true)
 }
 
@@ -391,7 +391,7 @@ pub unsafe extern "C" fn fdatasync(fd: c_int) -> c_int {
 // directory operations
 
 #[no_mangle]
-pub unsafe extern "C" fn rename(from: *const c_char, to: *const c_char) -> c_int {
+pub unsafe extern "C-unwind" fn rename(from: *const c_char, to: *const c_char) -> c_int {
     let real_rename = real!("rename", fn(*const c_char, *const c_char) -> c_int);
     if !active() {
         return real_rename(from, to);
@@ -426,7 +426,7 @@ pub unsafe extern "C" fn rename(from: *const c_char, to: *const c_char) -> c_int
 }
 
 #[no_mangle]
-pub unsafe extern "C" fn unlink(path: *const c_char) -> c_int {
+pub unsafe extern "C-unwind" fn unlink(path: *const c_char) -> c_int {
     let real_unlink = real!("unlink", fn(*const c_char) -> c_int);
     if !active() {
         return real_unlink(path);
@@ -454,7 +454,7 @@ pub unsafe extern "C" fn unlink(path: *const c_char) -> c_int {
 }
 
 #[no_mangle]
-pub unsafe extern "C" fn mkdir(path: *const c_char, mode: mode_t) -> c_int {
+pub unsafe extern "C-unwind" fn mkdir(path: *const c_char, mode: mode_t) -> c_int {
     let real_mkdir = real!("mkdir", fn(*const c_char, mode_t) -> c_int);
     if !active() {
         return real_mkdir(path, mode);
@@ -482,7 +482,7 @@ pub unsafe extern "C" fn mkdir(path: *const c_char, mode: mode_t) -> c_int {
 }
 
 #[no_mangle]
-pub unsafe extern "C" fn flock(fd: c_int, op: c_int) -> c_int {
+pub unsafe extern "C-unwind" fn flock(fd: c_int, op: c_int) -> c_int {
     let real_flock = real!("flock", fn(c_int, c_int) -> c_int);
     if !active() {
         return real_flock(fd, op);
@@ -504,7 +504,7 @@ pub unsafe extern "C" fn flock(fd: c_int, op: c_int) -> c_int {
 }
 
 #[no_mangle]
-pub unsafe extern "C" fn ftruncate64(fd: c_int, len: off64_t) -> c_int {
+pub unsafe extern "C-unwind" fn ftruncate64(fd: c_int, len: off64_t) -> c_int {
     let real_ftruncate = real!("ftruncate64", fn(c_int, off64_t) -> c_int);
     if !active() {
         return real_ftruncate(fd, len);
@@ -532,7 +532,7 @@ pub unsafe extern "C" fn ftruncate64(fd: c_int, len: off64_t) -> c_int {
     r
 }
 #[no_mangle]
-pub unsafe extern "C" fn ftruncate(fd: c_int, len: libc::off_t) -> c_int {
+pub unsafe extern "C-unwind" fn ftruncate(fd: c_int, len: libc::off_t) -> c_int {
     ftruncate64(fd, len)
 }
 
@@ -542,7 +542,7 @@ pub unsafe extern "C" fn ftruncate(fd: c_int, len: libc::off_t) -> c_int {
 macro_rules! unmodelled_fd {
     ($name:ident, $sym:literal, ($($arg:ident : $ty:ty),*), $ret:ty, $fd:ident) => {
         #[no_mangle]
-        pub unsafe extern "C" fn $name($($arg: $ty),*) -> $ret {
+        pub unsafe extern "C-unwind" fn $name($($arg: $ty),*) -> $ret {
             let realf = real!($sym, fn($($ty),*) -> $ret);
             if active() {
                 let _b = Bypass::new();
@@ -555,7 +555,7 @@ macro_rules! unmodelled_fd {
 macro_rules! unmodelled_path {
     ($name:ident, $sym:literal, ($($arg:ident : $ty:ty),*), $ret:ty, [$($p:ident),*]) => {
         #[no_mangle]
-        pub unsafe extern "C" fn $name($($arg: $ty),*) -> $ret {
+        pub unsafe extern "C-unwind" fn $name($($arg: $ty),*) -> $ret {
             let realf = real!($sym, fn($($ty),*) -> $ret);
             if active() {
                 let _b = Bypass::new();
@@ -617,13 +617,13 @@ unsafe fn model_kernel_copy(what: &str, fd_in: c_int, fd_out: c_int, explicit_of
 }
 
 #[no_mangle]
-pub unsafe extern "C" fn sendfile64(fd_out: c_int, fd_in: c_int, off: *mut off64_t, n: size_t) -> ssize_t {
+pub unsafe extern "C-unwind" fn sendfile64(fd_out: c_int, fd_in: c_int, off: *mut off64_t, n: size_t) -> ssize_t {
     let realf = real!("sendfile64", fn(c_int, c_int, *mut off64_t, size_t) -> ssize_t);
     model_kernel_copy("sendfile64", fd_in, fd_out, !off.is_null(), || realf(fd_out, fd_in, off, n))
 }
 
 #[no_mangle]
-pub unsafe extern "C" fn copy_file_range(fd_in: c_int, off_in: *mut off64_t, fd_out: c_int, off_out: *mut off64_t, n: size_t, flags: libc::c_uint) -> ssize_t {
+pub unsafe extern "C-unwind" fn copy_file_range(fd_in: c_int, off_in: *mut off64_t, fd_out: c_int, off_out: *mut off64_t, n: size_t, flags: libc::c_uint) -> ssize_t {
     let realf = real!("copy_file_range", fn(c_int, *mut off64_t, c_int, *mut off64_t, size_t, libc::c_uint) -> ssize_t);
     model_kernel_copy("copy_file_range", fd_in, fd_out, !off_in.is_null() || !off_out.is_null(), || realf(fd_in, off_in, fd_out, off_out, n, flags))
 }
